@@ -1,9 +1,10 @@
 """C13 -- v1 string classifier finds verbatim occurrences exactly; any value is accepted.
 M: V1Classify (generator invariants: plants are copies, context hides nothing).  G: every enumerated case replayed into the real
-AddValue/MultipleMatch/NearestMatch (3 concretisations: plain, FlattenWhitespace, multi-byte).  T: seeded larger cases.  Both validated by TraceV1."""
+AddValue/MultipleMatch/NearestMatch (3 concretisations: plain, FlattenWhitespace, multi-byte).  T: seeded larger cases.  Both validated by TraceV1.  V1Uniquify: sort + uniquify as built, model-checked and replayed."""
 import time
 from lib import vlib
-from lib.vlib import tlc, tlc_require_ok
+import os
+from lib.vlib import tlc, tlc_require_ok, go_overlay_test, read_ndjson, sub
 from checks.v2common import Acc, cfg_text
 from checks.v1common import run_resumable, trace_v1
 PID = "C13"
@@ -30,6 +31,26 @@ def run():
     linesc = trace_v1(v, acc, recsc, "replay of V1Classify cases, character alphabet")
     acc.nontrivial += sum(1 for r in linesc if r.get("ev") == "mm" and r["plants"])
     crashes = crashes + crashesc
+    # result assembly (sort + uniquify) as built: M on the spec (a copy that shares no byte with another reported range is reported;
+    # the loop before fix 2a4e822 must violate it), G every small match set through the real sort and uniquify
+    r = tlc_require_ok(tlc("V1Uniquify", "V1UniquifyMC.cfg", timeout=900), "V1Uniquify"); acc.add_tlc(r, "V1UniquifyMC.cfg")
+    nv = tlc("V1Uniquify", "V1UniquifyAsBuilt.cfg", timeout=300)
+    if nv.violated != "DisjointKept":
+        raise vlib.Inconclusive("the inclusive-end variant of uniquify did not violate DisjointKept: " + nv.tail[-1200:])
+    acc.tlc.append({"cfg": "V1UniquifyAsBuilt.cfg", "expected_violation": "DisjointKept"})
+    gu = tlc_require_ok(tlc("V1Uniquify", "V1UniquifyGen.cfg", timeout=900, workers=4), "V1Uniquify vectors"); acc.add_tlc(gu, "V1UniquifyGen.cfg")
+    outu = os.path.join(sub("out"), "uniq.ndjson")
+    if os.path.exists(outu):
+        os.remove(outu)
+    rc, txt, _ = go_overlay_test("stringclassifier", ["common/util_test.go", "stringclassifier/uniq_driver_test.go"], "^TestVerifUniqReplay$", env={"VERIF_IN": gu.outpath, "VERIF_OUT": outu}, timeout=900)
+    ru = read_ndjson(outu)
+    su = [x for x in ru if x.get("kind") == "summary"]
+    if vlib.build_failed(txt) or not su or su[0]["vectors"] == 0:
+        raise vlib.Inconclusive("uniquify replay driver failed:\n" + txt[-2500:])
+    acc.evaluations += su[0]["vectors"]; acc.extra["uniquify_replay"] = su[0]
+    for x in ru:
+        if x.get("kind") == "mismatch":
+            v.fail("uniquify-replay", x)
     recs2, crashes2, _ = run_resumable("stringclassifier", SRC, "TestVerifSCTrace", {"VERIF_CASES": "1500" if th else "150"}, "sc.trace")
     for c in crashes2:
         v.fail("crash:" + c["what"].split(":")[1].strip()[:40] if ":" in c["what"] else "crash", c)
